@@ -93,8 +93,12 @@ def gen_hybrid_schema(rng, sw):
         fields = []
         for q in range(nf):
             r = rng.random()
-            nestable = [h for h in hyb if typegen.depth(schema, h) <= 2]
-            if (r < 0.15 or (q == 0 and sw.get("chain") and rng.random() < 0.6)) and nestable and sw.get("nested"):
+            # (parts that hold references are deeper by the reference's target: admitted separately)
+            nestable = [h for h in hyb if typegen.depth(schema, h) <= 2 or (sw.get("nested_refs") and typegen.has_refs(schema, h) and typegen.depth(schema, h) <= 4)]
+            refparts = [h for h in nestable if typegen.has_refs(schema, h)] if sw.get("nested_refs") and sw.get("nested") else []
+            if q == 0 and refparts and rng.random() < 0.6:
+                ft = rng.choice(refparts)  # a nested part that holds a reference
+            elif (r < 0.15 or (q == 0 and sw.get("chain") and rng.random() < 0.6)) and nestable and sw.get("nested"):
                 ft = nestable[-1] if sw.get("chain") and rng.random() < 0.7 else rng.choice(nestable)
             elif r < 0.30 and hyb and sw.get("refs"):
                 to = rng.choice(hyb)
@@ -130,7 +134,7 @@ def gen_hybrid_schema(rng, sw):
 def gen_world(rng, profile, tier):
     spec = objsim.gen_world(rng, profile, tier)
     sw = spec["switches"]
-    sw.update({"chain": rng.random() < 0.35, "nested": rng.random() < 0.8, "rename": rng.random() < 0.7, "refs": rng.random() < 0.6, "defaults": rng.random() < 0.7, "strings": rng.random() < 0.6, "hybrid": True, "xobj_input": rng.random() < 0.7, "omit": rng.random() < 0.6})
+    sw.update({"chain": rng.random() < 0.35, "nested": rng.random() < 0.8, "rename": rng.random() < 0.7, "refs": rng.random() < 0.6, "defaults": rng.random() < 0.7, "strings": rng.random() < 0.6, "hybrid": True, "xobj_input": rng.random() < 0.7, "omit": rng.random() < 0.6, "nested_refs": rng.random() < 0.5})
     spec["schema"] = gen_hybrid_schema(rng, sw)
     return spec
 
@@ -422,7 +426,29 @@ class HGenSource(GenSource):
             return {"op": "h_set", "obj": o.k, "path": p, "value": value, "how": rng.choice(["assign", "slice"])}
         if k == "struct":
             if typegen.has_refs(w.schema, t):
-                return None
+                # a nested part that holds references takes over another object of its class: its
+                # references are re-bound (same buffer: the same referents; other buffer: duplicates),
+                # and what the part shows for them has to follow. Afterwards the source's referent is
+                # written, which must show through an alias and must not show through a duplicate.
+                if not w.schema[t].get("hybrid") or "*" in p:
+                    return None
+                cands = [x for x in self.hlive(w) if x.t == t and x.k != o.k and objsim._shape_compatible(w.schema, t, n, x.node)]
+                if not cands:
+                    return None
+                src = rng.choice(cands)
+                op = {"op": "h_set", "obj": o.k, "path": p, "value": {"obj": src.k}, "raw": rng.random() < 0.35}
+                follow = []
+                for f in w.schema[t]["fields"]:
+                    if w.schema[f[1]]["k"] == "ref" and src.node.f[f[0]].to is not None:
+                        for x in self.hlive(w):
+                            if x.node is src.node.f[f[0]].to:
+                                leaves = [ff for ff in w.schema[x.t]["fields"] if w.schema[ff[1]]["k"] == "sc"]
+                                if leaves:
+                                    lf = rng.choice(leaves)
+                                    follow.append({"op": "h_set", "obj": x.k, "path": [lf[0]], "value": M.gen_scalar(rng, w.schema[lf[1]]["t"])})
+                if follow and not getattr(self, "pending", None):
+                    self.pending = follow[:2]
+                return op
             if rng.random() < 0.3 and w.schema[t].get("hybrid") and not getattr(self, "pending", None):
                 sc = self._resplit_scenario(w, o, p, t, n)
                 if sc:
@@ -781,9 +807,24 @@ class HStep(Step):
                         action = lambda: setattr(holder, name, py)  # noqa: E731
                     new = node
                     post = lambda: M.assign_into(schema, t, node, vnode)  # noqa: E731
-            elif k == "struct":
-                if typegen.has_refs(schema, t):
+            elif k == "struct" and typegen.has_refs(schema, t):
+                if form != "obj" or raw_holder:
                     raise Skip()
+                src = self.get_obj(v["obj"])
+                if src.t != t or src is o or getattr(src, "dressed", None) is None:
+                    raise Skip()
+                mat = M.Materialiser(schema, w.classes, w.objs, holder_bufid)
+                _, vnode = mat.mat(t, v)
+                if not objsim._shape_compatible(schema, t, node, vnode):
+                    raise Skip()
+                val = src.handle() if op.get("raw") else src.dressed
+                if mat.foreign or src.buf is not o.buf:
+                    self.res.fault("foreign_operand")
+                self.res.probe("nested_assignment_of_reference_bearing_part")
+                action = lambda: setattr(holder, name, val)  # noqa: E731
+                new = node
+                post = lambda: M.assign_into(schema, t, node, vnode)  # noqa: E731
+            elif k == "struct":
                 if form == "obj":
                     src = self.get_obj(v["obj"])
                     if src.t != t or src is o:
